@@ -9,8 +9,12 @@ def make_core(nphases=1, memtype="SDR", bankbits=1, rowbits=11, colbits=8, datab
               cmd_buffer_depth=2, buffered=False, auto_precharge=True, postponing=1,
               timing=None, read_time=4, write_time=4, cl=2, cwl=None, rdphase=0, wrphase=0,
               read_latency=2, write_latency=0, nranks=1, with_refresh=True, zqcs_freq=1e0, clk_freq=100e6,
-              bank_byte_alignment=0, port_kwargs=None):
+              bank_byte_alignment=0, port_kwargs=None, phase_signals=False):
     assert max(rowbits, colbits) >= 11, "A10 must exist on the DFI address bus (DESIGN 3.6)"
+    if phase_signals:
+        # PHYs with software-programmable read/write phases (S7DDRPHY, USDDRPHY) hand the controller Signals (CSR storage), not ints: the
+        # multiplexer then elaborates its dynamic-phase branch.  Undriven here, so they hold their reset value.
+        rdphase = Signal(max=max(nphases, 2), reset=rdphase); wrphase = Signal(max=max(nphases, 2), reset=wrphase)
     phy = PhySettings(phytype="verif", memtype=memtype, databits=databits,
                       dfi_databits=databits if memtype == "SDR" else 2 * databits,
                       nphases=nphases, rdphase=rdphase, wrphase=wrphase, cl=cl, cwl=cwl,
